@@ -1294,6 +1294,60 @@ def o_empty(case, T):
     require(out.crs == want_crs, "%s of an empty %s is tagged %r", mode, kind, str(out.crs)[:40])
 
 
+# ----------------------------------------------------------------------------- CRS handed over as a foreign object
+FOREIGN_DEFS = [
+    ("utm33_intl", "+proj=utm +zone=33 +ellps=intl +units=m +no_defs", (13.0, 42.0, 17.0, 50.0)),
+    ("utm55s_aust_SA", "+proj=utm +zone=55 +south +ellps=aust_SA +units=m +no_defs", (145.0, -40.0, 149.0, -30.0)),
+    ("utm33_towgs84", "+proj=utm +zone=33 +ellps=bessel +towgs84=598.1,73.7,418.2,0.202,0.045,-2.455,6.7 +units=m +no_defs", (13.0, 46.0, 17.0, 52.0)),
+    ("longlat_intl", "+proj=longlat +ellps=intl +no_defs", (5.0, 40.0, 20.0, 55.0)),
+    ("laea_sphere", "+proj=laea +lat_0=52 +lon_0=10 +x_0=4321000 +y_0=3210000 +R=6371007 +units=m +no_defs", (0.0, 45.0, 20.0, 60.0)),
+]
+
+
+def e_foreign(tier):
+    """The CRS is a rasterio CRS object built from a definition that merely *resembles* a registered CRS (bare
+    ellipsoid instead of the datum, custom towgs84): the object says exactly what it is."""
+    for name, proj4, box in FOREIGN_DEFS:
+        for role in ("src", "dst"):
+            for other in ("4326", "3857", "3035" if box[0] < 100 else "3577"):
+                for kind in ("MultiPoint", "Polygon"):
+                    yield {"name": name, "proj4": proj4, "box": list(box), "role": role, "other": other, "kind": kind}
+
+
+def o_foreign(case, T):
+    import rasterio.crs
+    import shapely.geometry as SG
+    from pyproj import CRS as P
+    from pyproj import Transformer
+
+    from odc.geo.geom import Geometry
+
+    rio = rasterio.crs.CRS.from_string(case["proj4"])
+    ref = P.from_user_input(case["proj4"])
+    x0, y0, x1, y1 = case["box"]
+    ll = [(x0 + (x1 - x0) * u, y0 + (y1 - y0) * v) for u, v in ((0.1, 0.1), (0.9, 0.2), (0.8, 0.85), (0.15, 0.7), (0.5, 0.5))]
+    other_pp = _pp(case["other"])
+    other_spec = mk_crs_spec({"label": case["other"], "spell": "int"})
+    if case["role"] == "src":
+        pts = [Transformer.from_crs(4326, ref, always_xy=True).transform(x, y) for x, y in ll]
+        src_spec, dst_spec, tr = rio, other_spec, Transformer.from_crs(ref, other_pp, always_xy=True)
+    else:
+        pts = [Transformer.from_crs(4326, other_pp, always_xy=True).transform(x, y) for x, y in ll]
+        src_spec, dst_spec, tr = other_spec, rio, Transformer.from_crs(other_pp, ref, always_xy=True)
+    shp = SG.MultiPoint(pts) if case["kind"] == "MultiPoint" else SG.Polygon(pts[:4])
+    g = Geometry(shp, src_spec)
+    out = g.to_crs(dst_spec)
+    got = [(p.x, p.y) for p in out.geom.geoms] if case["kind"] == "MultiPoint" else list(out.geom.exterior.coords)[:-1]
+    want = [tr.transform(x, y) for x, y in (pts if case["kind"] == "MultiPoint" else pts[:4])]
+    require(len(got) == len(want), "vertex count changed")
+    for i, (q, w) in enumerate(zip(got, want)):
+        tol = 1e-6 * max(1.0, abs(w[0]), abs(w[1])) * 1e-3 + (1e-9 if max(abs(w[0]), abs(w[1])) < 400 else 1e-4)
+        require(abs(q[0] - w[0]) <= tol and abs(q[1] - w[1]) <= tol, "%s as %s (CRS handed over as a rasterio object) <-> %s: vertex %d maps to (%.9g, %.9g), the projection library gives (%.9g, %.9g) for the identical definition",
+                case["name"], case["role"], case["other"], i, q[0], q[1], w[0], w[1])
+    T.nontrivial((case["name"], case["role"], case["other"], case["kind"]))
+    T.cls("foreign:" + case["name"])
+
+
 # ----------------------------------------------------------------------------- the edge of the world
 def e_world_edges(tier):
     """Geometries that touch the +-180 degree meridian / the edge of a global projection: the last column of a global
@@ -1367,6 +1421,7 @@ def build(chk: Check) -> None:
     chk.sub("to_crs_options", o_to_crs_options, strategy=s_to_crs(), n={"quick": 1200, "thorough": 40000}, budget_s={"quick": 40, "thorough": 200})
     chk.sub("to_crs_after_many_crs", o_after_many, strategy=s_after_many(), n={"quick": 40, "thorough": 1500}, budget_s={"quick": 40, "thorough": 200}, shrink=False)
     # budgets are per sub-check per shard; their sum bounds the tier's wall time (quick 90 s, thorough 15 min)
+    chk.sub("foreign_crs_objects", o_foreign, enum=e_foreign, exhaustive_tiers=("quick", "thorough"))
     chk.sub("world_edges", o_world_edges, enum=e_world_edges, exhaustive_tiers=("quick", "thorough"))
     chk.sub("empty_geometries", o_empty, enum=e_empty, exhaustive_tiers=("quick", "thorough"))
     chk.sub("segmented_examples", o_segmented, enum=e_examples, exhaustive_tiers=("quick", "thorough"))
